@@ -571,7 +571,8 @@ func (c *Client) send(dest *net.UDPAddr, msg *dhcpv4.DHCPv4) (resp <-chan *dhcpv
 
 	ch := make(chan *dhcpv4.DHCPv4, c.bufferCap)
 	done := make(chan struct{})
-	c.pending[msg.TransactionID] = &pendingCh{done: done, ch: ch}
+	own := &pendingCh{done: done, ch: ch}
+	c.pending[msg.TransactionID] = own
 	c.pendingMu.Unlock()
 
 	cancel = func() {
@@ -585,7 +586,10 @@ func (c *Client) send(dest *net.UDPAddr, msg *dhcpv4.DHCPv4) (resp <-chan *dhcpv
 		verifPoint("cancel.gap")
 
 		c.pendingMu.Lock()
-		if p, ok := c.pending[msg.TransactionID]; ok {
+		// Only remove our own entry: receiveLoop may already have removed
+		// it, and another caller may have registered the same
+		// TransactionID since.
+		if p, ok := c.pending[msg.TransactionID]; ok && p == own {
 			close(p.ch)
 			delete(c.pending, msg.TransactionID)
 		}
